@@ -149,6 +149,8 @@ def collect_reads_in_parallel(sample, chr_id, args):
     alignment_collector.alignment_stat_counter.dump(bamstat_file)
 
     logger.info("Finished processing chromosome " + chr_id)
+    # the destructor terminates and closes the save file: it has to happen before the lock vouches for it
+    del tmp_printer
     open(lock_file, "w").close()
     for bam in bam_file_pairs:
         bam[0].close()
@@ -310,9 +312,12 @@ def construct_models_in_parallel(sample, chr_id, dump_filename, args, read_group
         aggregator.transcript_model_global_counter.dump()
         transcript_stat_counter.dump(transcript_stat_file)
     logger.info("Finished processing chromosome " + chr_id)
+    # per-chromosome outputs are closed by the printers' destructors: it has to happen before the lock vouches for them
+    read_stat_counter = aggregator.read_stat_counter
+    del aggregator, tmp_gff_printer, tmp_extended_gff_printer, sqanti_t2t_printer
     open(lock_file, "w").close()
 
-    return aggregator.read_stat_counter, transcript_stat_counter
+    return read_stat_counter, transcript_stat_counter
 
 
 class ReadAssignmentAggregator:
